@@ -12,7 +12,8 @@ theorem doq_packet_len_src : doq_packet_len = "binary.BigEndian.Uint16(buf[:2])"
 theorem doq_want_len_src : doq_want_len = "uint16(n - 2)" := by decide
 theorem doq_read_src : doq_read = "stream, buf" := by decide
 theorem doq_buf_reslice_src : doq_buf_reslice = "buf[:quicBytePoolSize]" := by decide
-theorem doq_pool_size_src : doq_pool_size = "dns.MaxMsgSize" := by decide
+/-- After the `fix:` commit for C01 the DoQ buffer holds a maximum-size message and its 2-octet prefix. -/
+theorem doq_pool_size_src : doq_pool_size = "dns.MaxMsgSize + 2" := by decide
 theorem dns_header_size_src : dns_header_size = "12" := by decide
 
 /-! Plain DNS over UDP: `recvUDP`. -/
